@@ -8,6 +8,12 @@ Tie of Model/Xray.lean to xsf.py / cromermann.py:
   every tabulated element (scalar call, vector call, wavelength route, bare-element SLD);
   seeded random compounds through `xray_sld`, `index_of_refraction`, `mirror_reflectivity`
   (energy / wavelength / vectors / lists / natural_density); every atom and ion for f0 on a Q grid.
+* real code only: Formula objects kept alive across calls (`stream_objects`): the object passed with
+  density= / natural_density= is unchanged afterwards and gives what a fresh copy gives; natural density ->
+  in-place change (`+=`, `change_table` to a private table with revised masses) -> natural density again,
+  judged by the exact natural mass / actual mass of the composition the formula then has;
+  every symbol/charge form of `fxrayatstol` that names an atom or ion with coefficients is judged by the
+  coefficients of the atom/ion named (an explicit charge, 0 included, overrides the suffix).
 * direct oracle (exact `Fraction` interpolation on the raw rows, docstring equations with exact
   constants, `Decimal` for f0) evaluated on every case: a failure there is a violation with replay.
 """
@@ -15,6 +21,7 @@ from __future__ import annotations
 
 import cmath
 import math
+import re
 from fractions import Fraction
 
 from ..common import Run, f2h, h2f, run_driver, import_repo, InfraError
@@ -22,7 +29,8 @@ from .. import gens, pyside, translate, xray_data as xd
 from ..translators import xray as xtr
 
 RULE = ("distinct inputs of the correspondence: (element, energy) sweep points through four entry "
-        "points, (compound, density, energy|wavelength, call kind) cases, (atom|ion, Q) f0 points; "
+        "points, (compound, density, energy|wavelength, call kind) cases, (atom|ion, Q) f0 points, call sequences "
+        "on one Formula object; "
         "a case is non-trivial when the code returns numbers or NaN for it (the element has a table / "
         "the ion has coefficients) rather than None or an exception")
 
@@ -303,15 +311,17 @@ def gen_energy(rng, c: Ctx, struct):
     return math.exp(rng.uniform(math.log(0.03), math.log(30.0))), "random"
 
 
-def oracle_sld(c: Ctx, struct, density, energy):
-    """r_e*N_A*density/mass * Σ n f * 1e-8 from the parts handed to the constructor"""
+def oracle_sld(c: Ctx, struct, density, energy, tbl=None):
+    """r_e*N_A*density/mass * Σ n f * 1e-8 from the parts handed to the constructor (masses as the table
+    `tbl` - default: the public one - serves them)"""
+    tbl = c.tbl if tbl is None else tbl
     cnt = pyside.flat_counts(struct)
     M = Fraction(0)
     s1 = s2 = Fraction(0)
     sc1 = sc2 = 0.0
     nan1 = nan2 = False
     for k, n in cnt.items():
-        M += n * Fraction(pyside.atom_of(k, c.tbl).mass)
+        M += n * Fraction(pyside.atom_of(k, tbl).mass)
         t = c.tables[k[0]]
         (f1, a1), (f2, a2) = t.expected_both(energy)
         if f1 != f1:
@@ -561,6 +571,230 @@ def stream_compounds(run: Run, c: Ctx, batch: Batch, n):
                 batch.ask("mirror %s %s %s %s %s %s" % (f2h(dens), kind, f2h(val), f2h(ang), f2h(rough), toks), chk_m)
 
 
+# --------------------------------------------------------------------------- stream 2b: Formula objects kept alive
+
+def private_xray_table():
+    """a private table whose element masses were revised (H = 1.25 u, the others by up to 3 %): the ratio
+    natural mass / actual mass of a formula with isotopes differs from the public table's"""
+    from periodictable import core, mass, density, xsf
+    core.PRIVATE_TABLES.pop("c05-private", None)
+    t = core.PeriodicTable("c05-private")
+    mass.init(t)
+    density.init(t)
+    xsf.init(t)
+    for el in t:
+        if el.number == 1:
+            el._mass = 1.25
+        elif el.number > 1:
+            el._mass = el._mass * (1 + 0.005 * (el.number % 7))
+    return t
+
+
+def exact_masses(struct, tbl):
+    """(mass, natural mass) of a key structure over `tbl`, exact sums of the masses the table serves;
+    the natural partner of an isotope / isotope ion is its element / the element's ion of the same charge"""
+    M = Mn = Fraction(0)
+    for k, n in pyside.flat_counts(struct).items():
+        M += n * Fraction(pyside.atom_of(k, tbl).mass)
+        Mn += n * Fraction(pyside.atom_of((k[0], 0, k[2]), tbl).mass)
+    return M, Mn
+
+
+def gen_object_struct(rng, c: Ctx, want_isotope):
+    """a compound all of whose atoms have a table, with positive mass; with `want_isotope` at least one isotope"""
+    for _ in range(50):
+        st = gen_compound(rng, c)
+        cnt = pyside.flat_counts(st)
+        if not all(k[0] in c.tables for k in cnt):
+            continue
+        if want_isotope and not any(k[1] for k in cnt):
+            z = rng.choice([1, 1, 1, 3, 5, 6, 8, 17, 26, 92])
+            el = c.tbl[z]
+            a = rng.choice([2, 2, 3]) if z == 1 else rng.choice(el.isotopes)
+            st = st + [(gens.gen_count(rng), (z, a, 0))]
+        M, Mn = exact_masses(st, c.tbl)
+        if M > 0 and Mn > 0 and float(M) > 1e-6:
+            return st
+    return [(2, (1, 2, 0)), (1, (8, 0, 0))]
+
+
+def gen_object_case(rng, c: Ctx, idx):
+    """one scenario on a Formula object that stays alive across calls (plain data: replayable)"""
+    scenario = "whatif" if idx % 2 == 0 else "inplace"
+    e = math.exp(rng.uniform(math.log(0.05), math.log(29.0)))
+    dens = lambda: round(math.exp(rng.uniform(math.log(0.05), math.log(22.0))), 4)  # noqa
+    case = dict(object_case=scenario, first=gen_object_struct(rng, c, scenario == "inplace" or rng.random() < 0.6),
+                own=[rng.choice(["density", "natural_density"]), dens()], energy=e,
+                by_wavelength=rng.random() < 0.25)
+    if scenario == "whatif":
+        case["whatif"] = [[rng.choice(["sld_nat", "sld_nat", "sld_dens", "ior_nat", "mirror_nat", "sld_nat_vec", "sld_plain"]), dens()]
+                          for _ in range(rng.choice([1, 1, 2, 3]))]
+    else:
+        case["step"] = rng.choice(["iadd", "iadd", "iadd", "table", "iadd+table"])
+        case["add"] = gen_object_struct(rng, c, rng.random() < 0.3) if "iadd" in case["step"] else None
+        case["read_first"] = rng.choice(["constructor", "getter", "setter"])
+        case["then"] = [rng.choice(["setter", "setter", "getter"]), dens()]
+    if idx == 0:
+        case.update(first=[(2, (1, 2, 0)), (1, (8, 0, 0))], own=["density", 1.107], whatif=[["sld_nat", 1.0]], energy=8.0, by_wavelength=False)
+    if idx == 1:
+        case.update(first=[(2, (1, 2, 0)), (1, (8, 0, 0))], own=["natural_density", 1.0], step="iadd", add=[(2, (1, 0, 0)), (1, (8, 0, 0))],
+                    read_first="constructor", then=["setter", 1.0], energy=8.0, by_wavelength=False)
+    if idx == 3:
+        case.update(first=[(2, (1, 2, 0)), (1, (8, 0, 0))], own=["natural_density", 1.0], step="table", add=None,
+                    read_first="constructor", then=["getter", 1.0], energy=8.0, by_wavelength=False)
+    return case
+
+
+def _keystruct(s):
+    """a key structure back from plain data (JSON lists) / as generated"""
+    return [(n, tuple(f)) if len(f) == 3 and all(isinstance(x, int) for x in f) else (n, _keystruct(f)) for n, f in s]
+
+
+def run_object_case(c: Ctx, case, priv):
+    """execute the scenario on the real code; returns [(what, details, clause)] for every failed judgement.
+    Judged by (a) the exact recomputation r_e*N_A*density/mass*sum(n f) with density = natural density *
+    mass / natural mass where a natural density was given, (b) the same call on a fresh Formula object."""
+    np = c.np
+    from periodictable import xsf
+    from periodictable.formulas import formula
+    bad = []
+    first = _keystruct(case["first"])
+    e = case["energy"]
+    w = xd.energy_of_wavelength(e, c.const)
+    by_w = case["by_wavelength"]
+    ee = xd.energy_of_wavelength(w, c.const) if by_w else e
+    rel = 2e-8 if by_w else 2e-9
+    beam = dict(wavelength=w) if by_w else dict(energy=e)
+
+    def own_density(struct, tbl, mode, value):
+        if mode == "density":
+            return Fraction(value)
+        M, Mn = exact_masses(struct, tbl)
+        return Fraction(value) * M / Mn
+
+    def judge(vals, struct, tbl, density, what, clause, **info):
+        want = oracle_sld(c, struct, density, ee, tbl)
+        r, i = vals
+        if not (xd.close_scaled(r, want[0], want[2], rel=rel) and xd.close_scaled(i, want[1], want[3], rel=rel)):
+            bad.append((what, dict(info, got=[float(r), float(i)], expected=list(want[:2]), density_expected=float(density)), clause))
+        return want
+
+    def same(a, b, scale):
+        return xd.close_scaled(a[0], b[0], scale[0], rel=rel) and xd.close_scaled(a[1], b[1], scale[1], rel=rel)
+
+    def build(struct, tbl, mode, value):
+        return formula(pyside.struct_objs(struct, tbl), **{mode: value})
+
+    mode, value = case["own"]
+    f = build(first, c.tbl, mode, value)
+    d_own = own_density(first, c.tbl, mode, value)
+    if case["object_case"] == "whatif":
+        r0 = xsf.xray_sld(f, **beam)
+        want0 = judge(r0, first, c.tbl, d_own, "xray_sld of a Formula with its own %s is not r_e*N_A*density/mass*sum(n*f)" % mode, "sld")
+        structure0 = f.structure
+        for kind, v in case["whatif"]:
+            g = build(first, c.tbl, mode, value)        # a fresh copy: what the call must return
+            M, Mn = exact_masses(first, c.tbl)
+            if kind in ("sld_nat", "sld_nat_vec"):
+                arg = dict(energy=np.array([e, 1.1 * e])) if kind == "sld_nat_vec" else beam
+                got, ref = xsf.xray_sld(f, natural_density=v, **arg), xsf.xray_sld(g, natural_density=v, **arg)
+                if kind == "sld_nat_vec":
+                    got, ref = (got[0][0], got[1][0]), (ref[0][0], ref[1][0])
+                if kind == "sld_nat" or not by_w:
+                    judge(got, first, c.tbl, Fraction(v) * M / Mn, "xray_sld(<Formula>, natural_density=) is not the SLD at natural density * mass / natural mass", "isotopes", call=kind, value=v)
+            elif kind == "sld_dens":
+                got, ref = xsf.xray_sld(f, density=v, **beam), xsf.xray_sld(g, density=v, **beam)
+                judge(got, first, c.tbl, Fraction(v), "xray_sld(<Formula>, density=) is not r_e*N_A*density/mass*sum(n*f)", "sld", call=kind, value=v)
+            elif kind == "sld_plain":
+                got, ref = xsf.xray_sld(f, **beam), xsf.xray_sld(g, **beam)
+            elif kind == "ior_nat":
+                got, ref = xsf.index_of_refraction(f, natural_density=v, **beam), xsf.index_of_refraction(g, natural_density=v, **beam)
+                got, ref = (1 - complex(got).real, -complex(got).imag), (1 - complex(ref).real, -complex(ref).imag)
+            else:
+                ang = [0.05, 0.3, 2.0]
+                got, ref = (xsf.mirror_reflectivity(f, natural_density=v, angle=ang, **beam),
+                            xsf.mirror_reflectivity(g, natural_density=v, angle=ang, **beam))
+                got, ref = [float(x) for x in np.ravel(got)], [float(x) for x in np.ravel(ref)]
+                if any(x == x and not (-1e-12 <= x <= 1 + 1e-12) for x in got):
+                    bad.append(("mirror reflectivity outside [0, 1]", dict(call=kind, value=v, R=got), "reflectivity"))
+            if not all(xd.close_scaled(a, b, 0, rel=1e-8) or (kind == "ior_nat" and abs(a - b) < 1e-15)
+                                           for a, b in zip(np.ravel(got), np.ravel(ref))):
+                bad.append(("the same call gives another result for a Formula object that was used before than for a fresh copy of it",
+                            dict(call=kind, value=v, used=[float(x) for x in np.ravel(got)], fresh=[float(x) for x in np.ravel(ref)]), "sld"))
+            # the Formula passed in is an argument: afterwards it is the compound it was, at the density it had
+            r1 = xsf.xray_sld(f, **beam)
+            if f.structure != structure0 or not same(r1, r0, (want0[2], want0[3])) or f.density != g.density:
+                bad.append(("a call with density=/natural_density= changed the Formula object passed in: xray_sld(<the object>) "
+                            "afterwards is not what it was before, at the object's own density",
+                            dict(call=kind, value=v, before=[float(r0[0]), float(r0[1])], after=[float(r1[0]), float(r1[1])],
+                                 density_before=float(d_own), density_after=f.density), "sld"))
+                break
+            judge(r1, first, c.tbl, d_own, "xray_sld of a Formula object used in an earlier call is not r_e*N_A*density/mass*sum(n*f) "
+                  "at the object's own density", "sld", after_call=kind, value=v)
+        return bad
+    # ---- in-place change of the composition between two uses of the natural density
+    if case["read_first"] == "getter":
+        f.natural_density
+    elif case["read_first"] == "setter":
+        f.natural_density = f.natural_density
+    r0 = xsf.xray_sld(f, **beam)
+    judge(r0, first, c.tbl, d_own, "xray_sld of a Formula with its own %s is not r_e*N_A*density/mass*sum(n*f)" % mode, "sld")
+    struct, tbl = first, c.tbl
+    if "iadd" in case["step"]:
+        add = _keystruct(case["add"])
+        f += formula(pyside.struct_objs(add, c.tbl))
+        struct = first + add
+    if "table" in case["step"]:
+        f.change_table(priv)
+        tbl = priv
+    M, Mn = exact_masses(struct, tbl)
+    how, v = case["then"]
+    if how == "setter":
+        f.natural_density = v
+        r = xsf.xray_sld(f, **beam)
+        judge(r, struct, tbl, Fraction(v) * M / Mn,
+              "after an in-place change of the composition and natural_density = v, xray_sld is not the SLD at density "
+              "v * mass / natural mass of the composition the formula now has", "isotopes", natural_density=v)
+    else:
+        # the density (g/cm^3) is what it was; the natural density read back names the all-natural compound of
+        # the same SLD
+        r = xsf.xray_sld(f, **beam)
+        want = judge(r, struct, tbl, d_own, "after an in-place change of the composition xray_sld is not "
+                     "r_e*N_A*density/mass*sum(n*f) of the composition the formula now has", "sld")
+        nat = f.natural_density
+        h = formula(pyside.struct_objs([(float(n_), (k[0], 0, k[2])) for k, n_ in pyside.flat_counts(struct).items()], tbl))
+        rh = xsf.xray_sld(h, natural_density=nat, **beam)
+        if not xd.close_scaled(nat, float(d_own * Mn / M), 0, rel=2e-9) or \
+                not (xd.close_scaled(rh[0], r[0], 2 * want[2], rel=rel) and xd.close_scaled(rh[1], r[1], 2 * want[3], rel=rel)):
+            bad.append(("xray_sld at equal natural density depends on the isotopes present: the formula (changed in place) "
+                        "reports natural density %r, its all-natural counterpart at that natural density has another SLD" % nat,
+                        dict(with_isotopes=[float(r[0]), float(r[1])], natural=[float(rh[0]), float(rh[1])],
+                             natural_density=nat, natural_density_expected=float(d_own * Mn / M)), "isotopes"))
+    return bad
+
+
+def stream_objects(run: Run, c: Ctx, n):
+    rng = run.rng
+    priv = private_xray_table()
+    try:
+        for idx in range(n):
+            case = gen_object_case(rng, c, idx)
+            kind = case["object_case"] + ":" + (case.get("step") or case["whatif"][0][0])
+            run.count(key=("object", repr(case)), nontrivial=True, tag="object:" + kind,
+                      sample=repr(case)[:300] if idx < 2 else None)
+            try:
+                bad = run_object_case(c, case, priv)
+            except InfraError:
+                raise
+            except Exception as ex:  # noqa
+                bad = [("a sequence of x-ray calls on one Formula object raised %s: %s" % (type(ex).__name__, str(ex)[:120]), {}, "raises")]
+            for what, info, clause in bad:
+                run.violation(what, dict(case, **info), clause=clause)
+    finally:
+        from periodictable import core
+        core.PRIVATE_TABLES.pop("c05-private", None)
+
+
 # --------------------------------------------------------------------------- stream 3: f0
 
 Q_GRID = [0.0, 1e-9, 1e-4, 0.5, 1.0, 4.0, 12.566370614359172, 30.0, 75.0, 75.39822368615503,
@@ -681,6 +915,19 @@ def stream_f0(run: Run, c: Ctx, batch: Batch, extra):
         elif m:
             syms += [(key, 0), (key + "+", None), (key + "2-", 0)]
     syms += [("Xx", None), ("Fe", 9), ("Fe9+", 2), ("", None), ("+", None), ("Cval", 0), ("Siva", None), ("Fe", -2), ("Fe", 12)]
+    named = {r[0]: r for r in rows.values() if r[3]}      # element / ion symbols that have coefficients
+
+    def names(s, q):
+        """the row that (symbol, charge) names, stated independently of the code: `s` is the symbol of an atom or
+        ion with coefficients ('Ca', 'Ca2+', short 'Na+'); an explicit charge - 0 included - overrides the suffix"""
+        m = re.fullmatch(r"([A-Z][a-z]?)(?:([0-9]*)([+-]))?", s)
+        if not m:
+            return None
+        own = (int(m.group(2) or 1) * (1 if m.group(3) == "+" else -1)) if m.group(3) else 0
+        if xd.f0_key(m.group(1), own) not in named:
+            return None                                   # not the symbol of an atom / ion with coefficients
+        return named.get(xd.f0_key(m.group(1), own if q is None else q))
+
     for s, q in syms:
         if any(ch in s for ch in " \t"):
             continue
@@ -690,6 +937,24 @@ def stream_f0(run: Run, c: Ctx, batch: Batch, extra):
         except KeyError:
             got, err = None, "KeyError"
         run.count(key=("f0sym", s, q, stol), nontrivial=err is None, tag="f0:symbol")
+        row = names(s, q)
+        if row is not None:
+            # direct oracle: the coefficients of the atom / ion named, and its electron count as Q -> 0
+            for st in (stol, 0.0):
+                inp = dict(symbol=s, charge=q, stol=st, names=row[0])
+                want = NAN if st > 6 else xd.f0_reference(row[4], row[6], row[5], Fraction(st))
+                try:
+                    g_st = float(cromermann.fxrayatstol(s, st, q))
+                    g_q = float(cromermann.fxrayatq(s, st * 4 * math.pi, q)) if st == 0.0 else g_st
+                except Exception as ex:  # noqa
+                    run.violation("fxrayatstol(%r, s, charge=%r) raised %s although %r has coefficients" % (s, q, type(ex).__name__, row[0]),
+                                  inp, clause="f0-lookup")
+                    break
+                if not (xd.close_scaled(g_st, want, rel=1e-9) and xd.close_scaled(g_q, want, rel=1e-9)):
+                    run.violation("fxrayatstol / fxrayatq(%r, charge=%r) is not the form factor of %r" % (s, q, row[0]),
+                                  dict(inp, got=g_st, got_fxrayatq=g_q, expected=want), clause="f0-lookup")
+                elif st == 0.0 and not abs(g_st - (row[1] - row[2])) <= 0.05:
+                    run.violation("f0(0) is not the electron count", dict(inp, got=g_st, electrons=row[1] - row[2]), clause="f0-limit")
 
         def chk(rep, s=s, q=q, stol=stol, got=got, err=err):
             w = rep.split()
@@ -787,6 +1052,7 @@ def run(run: Run) -> int:
     guarded(run, "conversions", stream_convert, run, c, batch, 200 if quick else 20000)
     guarded(run, "f0", stream_f0, run, c, batch, 2 if quick else 150)
     guarded(run, "compounds", stream_compounds, run, c, batch, 2500 if quick else 300000)
+    guarded(run, "Formula objects", stream_objects, run, c, 400 if quick else 20000)
     batch.run()
     run.exhaustive = False
     return run.finish(RULE, assumptions=[
@@ -816,6 +1082,28 @@ def replay(data) -> int:
         inp = v["input"]
         label = "%s | input: %s" % (v.get("what", v.get("corr")), {k: inp[k] for k in inp if k not in ("got", "expected")})
         try:
+            if "object_case" in inp:
+                case = {k: inp[k] for k in ("object_case", "first", "own", "energy", "by_wavelength", "whatif", "step",
+                                            "add", "read_first", "then") if k in inp}
+                print("%s\n   scenario on one Formula object: %s" % (v.get("what"), case))
+                try:
+                    bad = run_object_case(c, case, private_xray_table())
+                except Exception as ex:  # noqa
+                    bad = [("raised %s: %s" % (type(ex).__name__, ex), {}, "raises")]
+                for what, info, _ in bad:
+                    print("   code fails: %s\n      %s" % (what, info))
+                if not bad:
+                    print("   code: every judgement of the scenario holds")
+                continue
+            if "symbol" in inp and "stol" in inp:
+                from periodictable import cromermann
+                try:
+                    got = cromermann.fxrayatstol(inp["symbol"], inp["stol"], inp.get("charge"))
+                except Exception as ex:  # noqa
+                    got = "raised %s" % type(ex).__name__
+                print("%s\n   code: fxrayatstol(%r, %r, charge=%r) = %r   expected: %r (coefficients of %r)" % (
+                    v.get("what"), inp["symbol"], inp["stol"], inp.get("charge"), got, inp.get("expected"), inp.get("names")))
+                continue
             if "element" in inp and ("energy" in inp or "wavelength" in inp):
                 z = sym2z[inp["element"]]
                 if "energy" in inp:
